@@ -299,7 +299,7 @@ func exerciseBlock(t vk.TB, tn *testNode, wire []byte) (stage string) {
 	}
 	var err error
 	if p, pv, frame := vk.Catch(func() { err = tn.Chain.CheckBlockSanity(&b) }); p {
-		vk.Report(t, "C03:panic:"+frame, fmt.Sprintf("CheckBlockSanity panicked: %v", pv), render(pv))
+		vk.Report(t, panicSig(frame, pv), fmt.Sprintf("CheckBlockSanity panicked: %v", pv), render(pv))
 		return "sanity-panic"
 	}
 	if err != nil {
@@ -310,7 +310,7 @@ func exerciseBlock(t vk.TB, tn *testNode, wire []byte) (stage string) {
 		return "not-on-tip"
 	}
 	if p, pv, frame := vk.Catch(func() { err = tn.Chain.CheckBlockContext(&b, prev) }); p {
-		vk.Report(t, "C03:panic:"+frame, fmt.Sprintf("CheckBlockContext panicked: %v", pv), render(pv))
+		vk.Report(t, panicSig(frame, pv), fmt.Sprintf("CheckBlockContext panicked: %v", pv), render(pv))
 		return "context-panic"
 	}
 	if err != nil {
@@ -423,7 +423,7 @@ func runProcessUnit(t *testing.T, profile string, nblocks int) {
 				stage = "side"
 			}
 		}); p {
-			vk.Report(t, "C03:panic:"+frame, fmt.Sprintf("ProcessBlock panicked: %v", pv),
+			vk.Report(t, panicSig(frame, pv), fmt.Sprintf("ProcessBlock panicked: %v", pv),
 				map[string]any{"block_wire": fmt.Sprintf("%x", wire), "profile": profile, "confirm": confirmKind, "panic": fmt.Sprint(pv)})
 			stage = "panic"
 		}
